@@ -91,7 +91,7 @@ def parseParams (s : String) : Params :=
       | _ => p) {}
 
 def schema : Env := Gen.Ngap.schema
-def fuel : Nat := 400
+def fuel : Nat := 8 * (Gen.Ngap.schema.length + 1) + 1   -- the fuel of Props.C14 (schema-determined)
 
 def typeId (name : String) : Option Nat := schema.findIdx? (fun sd => sd.name == name)
 
